@@ -28,7 +28,7 @@ Documents  : STRUCTURED damage (harness/lib/docdamage.py): the file stays well-f
              "", "x", [], [1], {}, {"a": 1}) or a value is emptied in place -- at EVERY key path (first / last array element) of
              the current metadata file, of reachable Avro manifest lists / manifests (schema and records changed together; null in
              all records or only the last) and of the same files in the legacy JSON format (fifth table variant).  The readers'
-             demands on these documents are REGENERATED from the source (translator/gen_meta.py -> Gen/GenMeta.v: the shapes of
+             demands on these documents are REGENERATED from the source (translator/gen_doc.py -> Gen/GenDoc.v: the shapes of
              _dict_to_metadata and of the record loops / JSON fallbacks of read_manifest(_list)_file as terms of Model/Doc.v) and
              Model/GCDoc.v puts the collector on top: C07_metadata_document_fail_closed (every document: refused = nothing
              deleted, or the collection worked from the manifest lists of ALL its snapshots and is safe for them),
@@ -72,7 +72,7 @@ MANIFEST_ENTRY = {
                   "C07_structured_damage_aborts (every metadata document, every list of decoded list / manifest records: a document "
                   "that lost a section, a key or a string the reachable set is computed from is refused -- raise, nothing deleted -- "
                   "and a collection that runs worked from ALL the snapshots / entries the document carries) proved over the readers' "
-                  "demands REGENERATED from _dict_to_metadata / read_manifest(_list)_file (Gen/GenMeta.v), tied by running every "
+                  "demands REGENERATED from _dict_to_metadata / read_manifest(_list)_file (Gen/GenDoc.v), tied by running every "
                   "structured damage (drop / null / retype / empty at every key path of the metadata JSON, of Avro and legacy-JSON "
                   "lists and manifests) through the library and the model; "
                   "C07_fail_closed (every fault oracle: an abort raised while reachability / in-flight protection is established deletes "
@@ -82,7 +82,7 @@ MANIFEST_ENTRY = {
                   "model with regenerated path kernel, for both orders of the two preparatory phases (regenerated MARKERS_FIRST); the model's "
                   "fault handling is tied to the code by injecting a fault at every storage call of real collections (4 fault kinds; thorough: "
                   "pairs) and every damage class on every reachable metadata-plane file, comparing abort phase, deleted set and call trace",
-    "level_note": "trusted: Coq kernel; translator/gen_norm.py (incl. the pinned try/except skeleton) and translator/gen_meta.py (reader "
+    "level_note": "trusted: Coq kernel; translator/gen_norm.py (incl. the pinned try/except skeleton) and translator/gen_doc.py (reader "
                   "shapes; fail closed on any use of the document outside its subset, e.g. a helper that defaults a missing section); "
                   "wf_store; Schema.__post_init__ and the int()-keyed statistics maps are external validations (parameter `ext`, "
                   "measured per document); json.loads / fastavro decoding themselves are not modelled: faults and BYTE damage of the "
@@ -862,7 +862,7 @@ def make_specs(ctx) -> List[Dict[str, Any]]:
 EVAL_STATS = {"requested": 0, "distinct": 0}
 
 
-DREQ = REQ + ["DS.Model.Doc", "DS.Gen.GenMeta", "DS.Model.GCDoc"]
+DREQ = REQ + ["DS.Model.Doc", "DS.Gen.GenDoc", "DS.Model.GCDoc"]
 
 
 def eval_dedup(exprs: List[str], pre: str, req: Optional[List[str]] = None) -> List[Any]:
@@ -1158,7 +1158,7 @@ def run(ctx) -> None:
         "translator/gen_norm.py (regenerated path kernel; try/except skeleton of collect / _load_inflight_protection / _marker_targets / _gc_prefix pinned)",
         "harness: harness/props/c07.py, harness/lib/gcsim.py (fault injection by wrapping the storage backend object; independent reader; frozen clock)",
         "fault model: FRaise = OSError/FileNotFoundError, FRaiseX = any non-OSError exception, FBad = unusable result; one fault changes one call",
-        "translator/gen_meta.py (reader shapes of _dict_to_metadata / read_manifest(_list)_file; which dataclasses validate); harness/lib/docdamage.py",
+        "translator/gen_doc.py (reader shapes of _dict_to_metadata / read_manifest(_list)_file; which dataclasses validate); harness/lib/docdamage.py",
         "external validations measured per document and passed to the model as the parameter `ext`: Schema(...) on the items of `schemas`; "
         "the int()-keyed statistics maps of a manifest entry",
     ]
@@ -1170,7 +1170,7 @@ def run(ctx) -> None:
         "legacy JSON list / manifest whose `manifests` / `files` section is dropped or replaced by an empty object / string",
         "a value emptied in place (same type) or an Avro container with zero records is a well-formed document saying something else: not judged",
     ]
-    ctx.proofs(THEOREMS, gen_files=["GenNorm.v", "GenMeta.v"])
+    ctx.proofs(THEOREMS, gen_files=["GenNorm.v", "GenDoc.v"])
     ctx.allow_axioms([])
     run_campaign(ctx)
 
